@@ -159,6 +159,23 @@ func c08HashSub() *engine.Sub {
 					ctx.Failf(cs, "bytes/writer-vs-buffered", "deterministic signer, but ToSealedWriter and ToSealed produce different bytes for %s", cs.Spec)
 				}
 			}
+			// the sink is the caller's: a *bytes.Buffer that already holds something (a frame prefix, an earlier
+			// token). The CID is the address of what THIS call wrote.
+			var pre bytes.Buffer
+			pre.WriteString("frame-prefix:")
+			for round := 0; round < 2; round++ {
+				before := pre.Len()
+				c4, err := tok.(writerSealer).ToSealedWriter(&pre, key.Priv)
+				ctx.Eval(1)
+				if err != nil {
+					ctx.Failf(cs, "cid/tosealedwriter-error", "ToSealedWriter into a non-empty *bytes.Buffer fails: %v", err)
+					break
+				}
+				if wrote := pre.Bytes()[before:]; !c4.Equals(refCID(wrote)) {
+					ctx.Failf(cs, "cid/tosealedwriter-nonempty-buffer", "ToSealedWriter of %s into a *bytes.Buffer already holding %d bytes returned CID %s; the %d bytes it appended hash to %s", cs.Spec, before, c4, len(wrote), refCID(wrote))
+					break
+				}
+			}
 			type dec struct {
 				name string
 				f    func(r io.Reader, b []byte) (cid.Cid, error)
